@@ -329,13 +329,19 @@ pub fn run(ctx: &'static Ctx) {
         let h = &hr[hi];
         let vals = [V::Bool(true), V::U(7), V::t("v"), V::A(vec![V::U(1), V::t("usb")]), V::M(vec![(V::t("a"), V::B(vec![1, 2, 3]))]), V::Null];
         let mut with = h.wire.clone();
-        for j in 0..k {
-            let pos = match placement {
-                0 => 0,
-                1 => usize::MAX,
-                _ => (j * 2 + 1).min(h.len + j),
-            };
-            with = treewalk::inserted(&with, &h.path, pos, V::t(&format!("unk{:03}", j)), vals[j % vals.len()].clone());
+        // same result as k calls of treewalk::inserted, without cloning the tree k times
+        match treewalk::get_mut(&mut with, &h.path).expect("path") {
+            V::M(m) => {
+                for j in 0..k {
+                    let pos = match placement {
+                        0 => 0,
+                        1 => usize::MAX,
+                        _ => (j * 2 + 1).min(h.len + j),
+                    };
+                    m.insert(pos.min(m.len()), (V::t(&format!("unk{:03}", j)), vals[j % vals.len()].clone()));
+                }
+            }
+            _ => panic!("many-unknown-members: host is not a map"),
         }
         let bytes = h.target.bytes(&with);
         l.nontrivial += 1;
